@@ -1,2 +1,97 @@
-(** placeholder until the C08 theorems are in place *)
-From Texel Require Import Prelude.Base.
+(** * C08 — a tile matrix's result does not depend on which others are requested (index part).
+
+    The index is always built for the deepest requested level d; a coarser level L is answered from it.
+    [coarsen g L] is the grid with deepest level L whose pixel is exactly 2^(d-L) pixels of g (same extent),
+    [coarsenHs g L hs] the deepest-level addresses of g divided (rounding down) by 2^(d-L),
+    [tmsGrid e d] the grid FromTileMatrixSet builds for extent e and deepest level d: res = XSpan / 2^d
+    rounded down.  The "extent divides evenly into pixels" condition is [(2^d | XSpan)]. *)
+From Coq Require Import ZArith List Bool.
+From Texel Require Import Prelude.Base Index.Model Index.ProofsInsert Index.ProofsGrid Index.ProofsRound.
+Import ListNotations.
+Open Scope Z_scope.
+
+(** everything the routing of a level l <= L looks at is identical in the two indexes *)
+Theorem C08_round_grid_levels : forall g L l hs x y, (L <= gdeep g)%nat -> (l <= L)%nat ->
+  quadExtent (coarsen g L) l x y = quadExtent g l x y /\
+  quadCentroid (coarsen g L) l x y = quadCentroid g l x y /\
+  hotAt (coarsen g L) (coarsenHs g L hs) l = hotAt g hs l /\
+  (forall a b, descendTo (coarsen g L) (hotLevels (coarsen g L) (coarsenHs g L hs)) a b l =
+               descendTo g (hotLevels g hs) a b l) /\
+  (forall a b, snapClosestPoints (coarsen g L) (hotLevels (coarsen g L) (coarsenHs g L hs)) a b l =
+               snapClosestPoints g (hotLevels g hs) a b l).
+Proof. exact round_grid_levels. Qed.
+Print Assumptions C08_round_grid_levels.
+
+(** indexing the same polygon in the coarser grid stores exactly the coarsened addresses
+    (floor division composes: a / res / 2^k = a / (2^k res)) *)
+Theorem C08_coarsen_insertPolygon : forall g L, (L <= gdeep g)%nat -> 0 < gres g ->
+  forall P hs, insertPolygon g P = Ok hs -> insertPolygon (coarsen g L) P = Ok (coarsenHs g L hs).
+Proof. exact coarsen_insertPolygon. Qed.
+Print Assumptions C08_coarsen_insertPolygon.
+
+(** hence: the routed centres of level l are the same whether the polygon is indexed with deepest level L
+    or with any deeper level *)
+Theorem C08_round_grid_routing : forall g L l P hs, 0 < gres g -> (L <= gdeep g)%nat -> (l <= L)%nat ->
+  insertPolygon g P = Ok hs ->
+  exists hs', insertPolygon (coarsen g L) P = Ok hs' /\
+    forall a b, snapClosestPoints (coarsen g L) (hotLevels (coarsen g L) hs') a b l =
+                snapClosestPoints g (hotLevels g hs) a b l.
+Proof. exact round_grid_routing. Qed.
+Print Assumptions C08_round_grid_routing.
+
+(** on a round tile matrix set the grid built for level L IS the coarsened grid built for level d *)
+Theorem C08_tmsGrid_round : forall e d L, (L <= d)%nat -> (pow2 d | emaxx e - eminx e) ->
+  tmsGrid e L = coarsen (tmsGrid e d) L.
+Proof. exact tmsGrid_round. Qed.
+Print Assumptions C08_tmsGrid_round.
+
+(** C08 for the index: tile matrix set whose extent divides evenly into the pixels of the deepest level d;
+    level l requested together with deeper ones (index built for d) or alone / with shallower ones only
+    (index built for L, l <= L <= d): the same centres for every segment *)
+Theorem C08_round_tms_routing : forall e d L l P hs, 0 < (emaxx e - eminx e) / pow2 d ->
+  (pow2 d | emaxx e - eminx e) -> (L <= d)%nat -> (l <= L)%nat ->
+  insertPolygon (tmsGrid e d) P = Ok hs ->
+  exists hs', insertPolygon (tmsGrid e L) P = Ok hs' /\
+    forall a b, snapClosestPoints (tmsGrid e L) (hotLevels (tmsGrid e L) hs') a b l =
+                snapClosestPoints (tmsGrid e d) (hotLevels (tmsGrid e d) hs) a b l.
+Proof. exact round_tms_routing. Qed.
+Print Assumptions C08_round_tms_routing.
+
+(** non-vacuity: extent [0, 96)^2 divides evenly into 2^3 pixels of 12; level 2 from the index of level 3 and
+    from the index of level 2 *)
+Definition e96 : extent := mkExtent 0 0 96 96.
+Definition Ptri : list ring := [[(10, 10); (60, 10); (60, 60)]].
+
+Example C08_round_example :
+  0 < (emaxx e96 - eminx e96) / pow2 3 /\ (pow2 3 | emaxx e96 - eminx e96) /\
+  insertPolygon (tmsGrid e96 3) Ptri = Ok [(0, 0); (5, 0); (5, 5)] /\
+  insertPolygon (tmsGrid e96 2) Ptri = Ok [(0, 0); (2, 0); (2, 2)] /\
+  snapClosestPoints (tmsGrid e96 3) (hotLevels (tmsGrid e96 3) [(0, 0); (5, 0); (5, 5)]) (10, 10) (60, 10) 2
+    = [(12, 12); (60, 12)] /\
+  snapClosestPoints (tmsGrid e96 2) (hotLevels (tmsGrid e96 2) [(0, 0); (2, 0); (2, 2)]) (10, 10) (60, 10) 2
+    = [(12, 12); (60, 12)].
+Proof.
+  split; [reflexivity |]. split; [exists 12; reflexivity |]. vm_compute. repeat split; reflexivity.
+Qed.
+
+(** the hypothesis is needed: extent [0, 100)^2, 100 / 2^3 = 12 (rounded down), 100 / 2^2 = 25 <> 2 * 12.
+    Level 2 answered from the index built for level 3 has pixels of 24, built for level 2 pixels of 25:
+    the same edge of the same polygon gets different centres. *)
+Definition e100 : extent := mkExtent 0 0 100 100.
+
+Example C08_nonround_example :
+  ~ (pow2 3 | emaxx e100 - eminx e100) /\
+  gres (tmsGrid e100 2) <> gres (coarsen (tmsGrid e100 3) 2) /\
+  insertPolygon (tmsGrid e100 3) Ptri = Ok [(0, 0); (5, 0); (5, 5)] /\
+  insertPolygon (tmsGrid e100 2) Ptri = Ok [(0, 0); (2, 0); (2, 2)] /\
+  snapClosestPoints (tmsGrid e100 3) (hotLevels (tmsGrid e100 3) [(0, 0); (5, 0); (5, 5)]) (10, 10) (60, 10) 2
+    = [(12, 12); (60, 12)] /\
+  snapClosestPoints (tmsGrid e100 2) (hotLevels (tmsGrid e100 2) [(0, 0); (2, 0); (2, 2)]) (10, 10) (60, 10) 2
+    = [(12, 12); (62, 12)].
+Proof.
+  split.
+  - intros [k Hk]. vm_compute in Hk. destruct k as [| k | k]; try discriminate.
+    assert (H : (Z.pos k * 8) mod 8 = 100 mod 8) by (f_equal; symmetry; exact Hk).
+    rewrite Z.mod_mul in H by discriminate. vm_compute in H. discriminate.
+  - vm_compute. repeat split; try reflexivity; discriminate.
+Qed.
